@@ -142,9 +142,18 @@ def make_interp(run, base_it, log, device=None, modular=False):
             if obj.tag == 'fwfile':
                 if name == 'read':
                     def read(it2, a, k):
+                        # firmware_len is the length of the FILE (what the property speaks of); read(k) yields min(length, k) bytes
                         n = dom.var('firmware_len')
                         run.assume(n.t >= 0)
-                        fw = W.SymSized('bytes', n)
+                        if k:
+                            raise I.Unsupported('file.read with keyword arguments')
+                        if a and a[0] is not None and not (isinstance(a[0], int) and a[0] < 0):
+                            lim = dom.lift(a[0])
+                            got = fresh_int('bytes_read', 0)
+                            run.assume(z3.And(got.t <= n.t, got.t <= lim.t, z3.Or(got.t == n.t, got.t == lim.t)))
+                            fw = W.SymSized('bytes', got)
+                        else:
+                            fw = W.SymSized('bytes', n)
                         run.notes['firmware'] = fw
                         return fw
                     return I.Builtin('read', read)
